@@ -333,6 +333,51 @@ def align(old, new):
     return m
 
 
+
+def detect_renames(e_old, e_new):
+    """Consistent renames of local identifiers between the annotated baseline and the repository tokens:
+    X (absent from the new text) -> Y (absent from the old text), every occurrence of X replaced by Y at the
+    aligned position and nothing else replaced by Y.  Returns {X: Y}."""
+    to, tn = texts(e_old), texts(e_new)
+    so, sn = set(to), set(tn)
+    idk = lambda ts: set(t.text for t in ts if t.kind == 'id')
+    gone = idk(e_old) - sn
+    fresh = idk(e_new) - so
+    if not gone or not fresh:
+        return {}
+    # abstract the candidates and align
+    ao = ['\x00ID' if t in gone else t for t in to]
+    an = ['\x00ID' if t in fresh else t for t in tn]
+    sm = difflib.SequenceMatcher(a=ao, b=an, autojunk=False)
+    votes = {}
+    for a, b, size in sm.get_matching_blocks():
+        for d in range(size):
+            if ao[a + d] == '\x00ID':
+                votes.setdefault(to[a + d], []).append(tn[b + d])
+    ren = {}
+    for x, ys in votes.items():
+        y = ys[0]
+        if all(v == y for v in ys) and len(ys) == to.count(x) and tn.count(y) == len(ys):
+            ren[x] = y
+    # injective
+    if len(set(ren.values())) != len(ren):
+        return {}
+    return ren
+
+
+def apply_renames(body, ren):
+    """rename identifier tokens in a template body (executable and ghost text alike)"""
+    ttoks = tokenize(body)
+    out = []
+    pos = 0
+    for t in ttoks:
+        if t.kind == 'id' and t.text in ren:
+            out.append(body[pos:t.start])
+            out.append(ren[t.text])
+            pos = t.end
+    out.append(body[pos:])
+    return ''.join(out)
+
 # ------------------------------------------------------------------ region assembly
 
 class Region:
@@ -343,6 +388,7 @@ class Region:
         self.props = []
         self.text = ''
         self.changed = False          # repo text differs from the annotated baseline
+        self.renamed = False
         self.n_exec = 0
         self.n_changed_tokens = 0
         self.hash_repo = self.hash_out = ''
@@ -379,6 +425,15 @@ def build_region(args, body, features, rules_mod=None):
     ttoks = tokenize(body)
     mask = ghost_mask(ttoks)
     e_old = [t for t, gm in zip(ttoks, mask) if not gm]
+    if texts(e_old) != texts(e_new):
+        ren = detect_renames(e_old, e_new)
+        if ren:
+            body = apply_renames(body, ren)
+            ttoks = tokenize(body)
+            mask = ghost_mask(ttoks)
+            e_old = [t for t, gm in zip(ttoks, mask) if not gm]
+            r.log.append('local identifiers renamed in the repository; ghost text follows: %s' % ', '.join('%s->%s' % kv for kv in sorted(ren.items())))
+            r.renamed = True
     r.n_exec = len(e_new)
     r.hash_repo = thash(e_new)
     # explicit additions, for the log
